@@ -20,6 +20,11 @@
 
    Versions are (major, minor) = (block number, number of blocks already stored at that height).
 
+   The key layout (hist / deduped partition factors, hash-skipping per trie) is fixed when the database is created and
+   is part of the PERSISTENT state (opt; muxdb.props "config"): re-opening with other Options must keep using it
+   (use = layout the open MuxDB composes keys with; LayoutAfterReopen).  A node written under one hist factor is not
+   found under another (partition id and width of the version suffix differ).
+
    hist is kept as  ever (all nodes ever written, ghost)  minus the deleted partitions [0, delp): DeleteHistoryNodes
    removes the partition range [base/hf, target/hf) and base is always the previous target, so the union of all
    ranges deleted so far is [0, base/hf); a commit never writes below it (its parent is retained).                *)
@@ -36,7 +41,8 @@ CONSTANTS Nib,        \* nibble alphabet, e.g. {0,1}
           MaxForks,   \* total number of fork commits
           MaxTouch,   \* max updates per block (over all tries)
           AlignedOnly,\* TRUE: prune targets are multiples of the hist partition factor (as in production)
-          InFlightReads \* TRUE: the guarantees also cover reads of blocks below the target WHILE a round is running
+          InFlightReads \* TRUE: the guarantees also cover reads of blocks below the target whose hist partition has
+                        \* not been range-deleted yet (round still running, or target not aligned to the partition)
 
 VARIABLES opt,      \* [hf |-> hist partition factor, df |-> deduped partition factor, skip |-> SUBSET Names]
           vers,     \* committed block versions
@@ -45,6 +51,8 @@ VARIABLES opt,      \* [hf |-> hist partition factor, df |-> deduped partition f
           cont,     \* ghost: [Names -> [root versions -> content]]
           tver,     \* bookkeeping: [Names -> [root versions -> [standalone path -> version of the node there]]]
           ever,     \* every node ever written: <<name, path, ver>> |-> node
+          wl,       \* ghost: <<name, path, ver>> |-> hist partition factor its key was composed with
+          use,      \* [hf, df] the open MuxDB composes keys with (must always equal the persisted opt)
           delp,     \* hist partitions below delp have been range-deleted
           dedup,    \* <<ptn, name, path>> |-> node
           base,     \* prune base: majors below are pruned
@@ -52,7 +60,7 @@ VARIABLES opt,      \* [hf |-> hist partition factor, df |-> deduped partition f
           pend,     \* pending prune target between Checkpoint and DeleteHist (0 = none)
           rcache,   \* root cache of the open MuxDB: [Names -> root version or NoVer]
           w         \* working copy: [par |-> block version or NoVer (closed), cur, touched]
-vars == <<opt, vers, anc, rootv, cont, tver, ever, delp, dedup, base, ckroot, pend, rcache, w>>
+vars == <<opt, vers, anc, rootv, cont, tver, ever, wl, use, delp, dedup, base, ckroot, pend, rcache, w>>
 
 V(a, b) == [maj |-> a, min |-> b]
 NoVer == V(0 - 1, 0)
@@ -88,11 +96,11 @@ MkNode(c, sa, tv, p) ==
    refs   |-> [q \in Kids(sa, p) |-> tv[q]]]
 
 \* ---------------------------------------------------------------- the reader (muxdb/trie.go:newDatabaseReader)
-HPtn(v) == v.maj \div opt.hf
-DPtn(v) == v.maj \div opt.df
+HPtn(v) == v.maj \div use.hf
+DPtn(v) == v.maj \div use.df
 Skip(n) == n \in opt.skip
 EverGet(n, p, v) == IF <<n, p, v>> \in DOMAIN ever THEN ever[<<n, p, v>>] ELSE NoNode
-HistHas(n, p, v) == <<n, p, v>> \in DOMAIN ever /\ HPtn(v) >= delp
+HistHas(n, p, v) == <<n, p, v>> \in DOMAIN ever /\ HPtn(v) >= delp /\ wl[<<n, p, v>>] = use.hf
 HistKeys == {k \in DOMAIN ever : HPtn(k[3]) >= delp}
 HistGet(n, p, v) == IF HistHas(n, p, v) THEN ever[<<n, p, v>>] ELSE NoNode
 DedGet(n, p, v) == IF <<DPtn(v), n, p>> \in DOMAIN dedup THEN dedup[<<DPtn(v), n, p>>] ELSE NoNode
@@ -132,12 +140,13 @@ StateErr(s) == \E n \in Names : s[n] = Err
 \* ---------------------------------------------------------------- retained / pruned
 \* A prune round [base, target) = Checkpoint (pend := target) ; DeleteHist (base := target).  From the moment the
 \* round starts the guarantee "reads exactly its content" is owed to the blocks at or after the target only.
-\* Blocks in [base, target) are IN FLIGHT until the deletion is done: their roots are still in hist while the
-\* deduped space below them is already being overwritten.
+\* Blocks below the target whose hist partition has not been range-deleted (yet) are IN FLIGHT: [base, target) until
+\* DeleteHist is done, and afterwards the blocks of the partition that contains an unaligned target.  Their roots are
+\* still in hist while the deduped space below them is already being overwritten.
 OnCanon(b) == ckroot = NoVer \/ ckroot \in anc[b]
 Lim == IF pend # 0 THEN pend ELSE base
 Retained(b) == b.maj >= Lim /\ OnCanon(b)
-InFlight(b) == pend # 0 /\ b.maj >= base /\ b.maj < pend
+InFlight(b) == b.maj < Lim /\ HPtn(b) >= delp
 Owed(b) == InFlightReads \/ ~InFlight(b)
 
 \* ---------------------------------------------------------------- commit
@@ -170,6 +179,8 @@ InitWith(o, c0) ==
   /\ cont = [n \in Names |-> IF n \in ne THEN [b \in {Genesis} |-> c0[n]] ELSE <<>>]
   /\ tver = [n \in Names |-> IF n \in ne THEN [b \in {Genesis} |-> res[n].tv] ELSE <<>>]
   /\ ever = MergeAll([n \in ne |-> res[n].nodes], ne)
+  /\ wl = [k \in DOMAIN MergeAll([n \in ne |-> res[n].nodes], ne) |-> o.hf]
+  /\ use = [hf |-> o.hf, df |-> o.df]
   /\ delp = 0 /\ dedup = <<>>
   /\ base = 0 /\ ckroot = NoVer /\ pend = 0
   /\ rcache = [n \in Names |-> IF n \in ne THEN Genesis ELSE NoVer]
@@ -181,18 +192,18 @@ CanOpen(p) == w.par = NoVer /\ p \in vers /\ Retained(p) /\ p.maj < MaxMaj
 Open(p) ==
   /\ CanOpen(p)
   /\ w' = [par |-> p, cur |-> Logical(p), touched |-> [n \in Names |-> {}]]
-  /\ UNCHANGED <<opt, vers, anc, rootv, cont, tver, ever, delp, dedup, base, ckroot, pend, rcache>>
+  /\ UNCHANGED <<opt, vers, anc, rootv, cont, tver, ever, wl, use, delp, dedup, base, ckroot, pend, rcache>>
 
 \* trie.Update: an insert of the value already there and a delete of an absent key leave the path clean
 Update(n, k, v) ==
   /\ w.par # NoVer /\ v # w.cur[n][k]
   /\ w' = [w EXCEPT !.cur[n][k] = v, !.touched[n] = @ \cup {k}]
-  /\ UNCHANGED <<opt, vers, anc, rootv, cont, tver, ever, delp, dedup, base, ckroot, pend, rcache>>
+  /\ UNCHANGED <<opt, vers, anc, rootv, cont, tver, ever, wl, use, delp, dedup, base, ckroot, pend, rcache>>
 \* delete + re-insert of the same value inside one block: content unchanged, path dirty
 Touch(n, k) ==
   /\ w.par # NoVer /\ w.cur[n][k] # 0
   /\ w' = [w EXCEPT !.touched[n] = @ \cup {k}]
-  /\ UNCHANGED <<opt, vers, anc, rootv, cont, tver, ever, delp, dedup, base, ckroot, pend, rcache>>
+  /\ UNCHANGED <<opt, vers, anc, rootv, cont, tver, ever, wl, use, delp, dedup, base, ckroot, pend, rcache>>
 
 NextMinor(m) == Cardinality({b \in vers : b.maj = m})
 \* commit of the working copy (p, cur, touched) as block version b: state.Stage.Commit commits every storage-like
@@ -208,9 +219,10 @@ DoCommit2(p, cur, b, res, nrv, cs) ==
                                   THEN [x \in DOMAIN tver[n] \cup {b} |-> IF x = b THEN res[n].tv ELSE tver[n][x]]
                                   ELSE tver[n]]
      /\ ever' = Merge(ever, MergeAll([n \in cs |-> res[n].nodes], cs))
+     /\ wl' = Merge(wl, [k \in DOMAIN MergeAll([n \in cs |-> res[n].nodes], cs) |-> use.hf])
      /\ rcache' = [n \in Names |-> IF nrv[n] = b THEN b ELSE rcache[n]]
      /\ w' = Closed
-     /\ UNCHANGED <<opt, delp, dedup, base, ckroot, pend>>
+     /\ UNCHANGED <<opt, use, delp, dedup, base, ckroot, pend>>
 \* a storage-like trie exists only below an account: its root reference lives in a leaf of a main trie, so a state
 \* with a non-empty storage-like trie has a non-empty main trie (whose root must be fetched first)
 Linked(cur) == (\E n \in Names \ Main : cur[n] # Empty) => (\E m \in Main : cur[m] # Empty)
@@ -250,7 +262,7 @@ CkptAll(t, bmaj) ==
          ELSE CkptSet(n, <<>>, rootv[n][t], bmaj) : n \in Names}
 AsFun(S) == [k \in {e[1] : e \in S} |-> (CHOOSE e \in S : e[1] = k)[2]]
 
-Aligned(target) == target % opt.hf = 0 \/ opt.hf = BigFactor
+Aligned(target) == target % use.hf = 0 \/ use.hf = BigFactor
 \* what thor guarantees before a prune round (awaitUntilPrunable: target+65535 is final):
 \*  - t = the canonical block target-1 descends from the previous round's block,
 \*  - every block at or above target descends from t (no live fork branches below the target),
@@ -271,20 +283,26 @@ Checkpoint(t, target) ==
        /\ \A e \in new : e[2] # NoNode
        /\ dedup' = Merge(dedup, AsFun(new))
   /\ pend' = target /\ ckroot' = t
-  /\ UNCHANGED <<opt, vers, anc, rootv, cont, tver, ever, delp, base, rcache, w>>
+  /\ UNCHANGED <<opt, vers, anc, rootv, cont, tver, ever, wl, use, delp, base, rcache, w>>
 
 \* backend.DeleteHistoryNodes: whole partitions [base/hf, target/hf)
+\* i.e. exactly the versions below floor(target/hf)*hf: the partition that contains an unaligned target stays
+DelLimit(target) == target \div use.hf
 DeleteHist ==
   /\ pend # 0
-  /\ delp' = IF pend \div opt.hf > delp THEN pend \div opt.hf ELSE delp
+  /\ delp' = IF DelLimit(pend) > delp THEN DelLimit(pend) ELSE delp
   /\ base' = pend /\ pend' = 0
-  /\ UNCHANGED <<opt, vers, anc, rootv, cont, tver, ever, dedup, ckroot, rcache, w>>
+  /\ UNCHANGED <<opt, vers, anc, rootv, cont, tver, ever, wl, use, dedup, ckroot, rcache, w>>
 
-\* a new MuxDB over the same store: caches are gone, an open working copy is dropped
-ReopenAny ==
+\* a new MuxDB over the same store (muxdb.Open with possibly different Options): caches are gone, an open working
+\* copy is dropped; the key layout is the PERSISTED one, whatever partition factors the caller asks for
+LayoutAfterReopen(persisted, requested) == persisted
+ReopenWith(req) ==
   /\ rcache' = [n \in Names |-> NoVer]
   /\ w' = Closed
-  /\ UNCHANGED <<opt, vers, anc, rootv, cont, tver, ever, delp, dedup, base, ckroot, pend>>
+  /\ use' = LayoutAfterReopen([hf |-> opt.hf, df |-> opt.df], req)
+  /\ UNCHANGED <<opt, vers, anc, rootv, cont, tver, ever, wl, delp, dedup, base, ckroot, pend>>
+ReopenAny == ReopenWith([hf |-> opt.hf, df |-> opt.df])
 Reopen == (w.par # NoVer \/ \E n \in Names : rcache[n] # NoVer) /\ ReopenAny
 
 \* ---------------------------------------------------------------- bounded exploration
@@ -339,6 +357,8 @@ RootCanonical ==
           /\ tver[n][rv][q].maj <= rv.maj
           /\ \A r \in DOMAIN tver[n][rv] : IsPrefix(q, r) =>
                (tver[n][rv][r].maj < tver[n][rv][q].maj \/ tver[n][rv][r] = tver[n][rv][q])
+\* the open MuxDB always composes keys with the layout the database was created with
+LayoutPersistent == use = [hf |-> opt.hf, df |-> opt.df]
 \* old versions do become unreadable (the pruner does prune): whole deleted partitions hold no main root
 PrunedUnreadable ==
   \A b \in vers : (HPtn(b) < delp /\ \E n \in Main : rootv[n][b] # NoVer) => StateErr(ReadState(b, FALSE))
